@@ -1035,3 +1035,12 @@ seed("C20", "C20-e", "C20.R9")
 v("C01", "setitem-negative-position-unnormalised", "fire", F,
   "        if position < 0:\n            position += len(self.coords)\n            if position < 0:\n                raise IndexError(\"Fiber position out of range\")\n",
   "", "C01.R4")
+
+
+# D16 (fix: _fillempty on an empty fiber)
+v("C13", "fillempty-descent-unguarded", "fire", F,
+  "            while len(f.payloads) > 0 and isinstance(f.payloads[0], Fiber):",
+  "            while isinstance(f.payloads[0], Fiber):", "C13.R2")
+v("C13", "silent-fillempty-guard-truthiness", "silent", F,
+  "            while len(f.payloads) > 0 and isinstance(f.payloads[0], Fiber):",
+  "            while f.payloads and isinstance(f.payloads[0], Fiber):", None)
